@@ -254,11 +254,33 @@ def r92(F):
     pf = F.fn("ucglib::iter::<impl core::convert::From<&'a ucglib::iter::OffsetStrIter<'a>> for ucglib::ast::Position>::from")
     o = Origins(pf)
     agg = [(b, rv) for b, j, pl, rv, m in pf.assigns() if rv["k"] == "agg" and rv.get("adt") == "ucglib::ast::Position"]
-    need(len(agg) == 1, "Position aggregate not found")
-    b, rv = agg[0]
     want = {"line": "::line", "column": "::column", "offset": "::get_offset"}
+    via_new = None
+    if len(agg) != 1:
+        # built with Position::new(line, column, offset) instead of a struct literal: which argument fills which field is read off
+        # Position::new's own struct literal
+        pn0 = [(bb, t) for bb, t in pf.calls() if callee(t) == POS_NEW]
+        nf = F.fns.get(POS_NEW)
+        if len(pn0) == 1 and nf is not None:
+            na = [(bb, rv_) for bb, j, pl, rv_, m in nf.assigns() if rv_["k"] == "agg" and rv_.get("adt") == "ucglib::ast::Position"]
+            if len(na) == 1:
+                on = Origins(nf)
+                fmap = {}
+                for fld in want:
+                    ps = {l[1] for l in on.at(na[0][1]["ops"][na[0][1]["fields"].index(fld)], na[0][0]) if l[0] == "param"}
+                    if len(ps) == 1:
+                        fmap[fld] = next(iter(ps)) - 1
+                if len(fmap) == 3:
+                    via_new = (pn0[0], fmap)
+    need(len(agg) == 1 or via_new is not None, "Position aggregate not found")
+    if via_new is None:
+        b, rv = agg[0]
     for fld, suf in want.items():
-        labs = o.at(rv["ops"][rv["fields"].index(fld)], b)
+        if via_new is not None:
+            (b, t_), fmap = via_new
+            labs = o.at(t_["args"][fmap[fld]], b)
+        else:
+            labs = o.at(rv["ops"][rv["fields"].index(fld)], b)
         cs = results_in(labs)
         ok = any(c.endswith(suf) for c in cs) and not any(c.endswith(s2) for f2, s2 in want.items() if f2 != fld for c in cs)
         r.inst("Position::from:%s" % fld, pf.where(b), ok, "%s <- %s()" % (fld, suf[2:]) if ok else "Position.%s is not filled from %s()" % (fld, suf[2:]))
@@ -268,6 +290,21 @@ def r92(F):
     bf = cands[0]
     ob = Origins(bf)
     pn = [(bb, t) for bb, t in bf.calls() if callee(t) == POS_NEW]
+    if len(pn) != 1:
+        # the position is taken in a helper of src/error.rs (the conversion split into functions): the one place in that file
+        # that builds a Position from line() / column() / get_offset()
+        alt = []
+        for n2, f2 in F.fns.items():
+            if f2.file == bf.file and not f2.derived and n2 != bf.name:
+                o2 = None
+                for bb2, t2 in f2.calls():
+                    if callee(t2) == POS_NEW:
+                        o2 = o2 or Origins(f2)
+                        if any(c.endswith(("::line", "::column", "::get_offset")) for a in t2["args"] for c in results_in(o2.at(a, bb2))):
+                            alt.append((f2, o2, bb2, t2))
+        if len(alt) == 1:
+            bf, ob, bb_, t_ = alt[0]
+            pn = [(bb_, t_)]
     need(len(pn) == 1, "Position::new not called once in BuildError::from")
     bb, t = pn[0]
     order = []
